@@ -88,7 +88,7 @@ def check(ctx):
     prog = ctx.prog
     v = ctx.body(G, r"^libp2p_gossipsub::protocol::validate_rpc_limits$")
     vw = "%s:%d" % (v.file, v.line)
-    cv = Canon(prog, v)
+    cv = Canon(prog, v, inline=r"^libp2p_gossipsub::")
     ctx.ob("frame-size", "floor:four parameters", v.argc == 4, vw, "argc=%d" % v.argc, nontrivial=False)
     pre = v.call_sites(r"prost_codec::consume_message_prefix$")
     tagc = v.call_sites(r"prost_codec::decode_field_tag$")
@@ -173,7 +173,7 @@ def check(ctx):
     ctx.floor("publish", "counter compared with max_publish_messages (parameter 3)", pcs, 1, exact=True)
     if pcs:
         pc = pcs[0]
-        cp_ = Canon(prog, v, {pc: "pc"})
+        cp_ = Canon(prog, v, {pc: "pc"}, inline=r"^libp2p_gossipsub::")
         prof = lib_gs2.counter_profile(cv, pc)
         ctx.ob("publish", "counter starts at 0 and only ever +1", prof == ["0", "AddWithOverflow(#, 1).0"], vw, str(prof))
         inc = [s for s, r in cv.defs(pc) if "AddWithOverflow" in r]
@@ -200,7 +200,7 @@ def check(ctx):
     ctx.floor("control", "accumulator compared with max_control_message_size (parameter 4)", css, 1, exact=True)
     if css:
         cs = css[0]
-        cc_ = Canon(prog, v, {cs: "cs"})
+        cc_ = Canon(prog, v, {cs: "cs"}, inline=r"^libp2p_gossipsub::")
         prof = lib_gs2.counter_profile(cv, cs)
         ctx.ob("control", "accumulator starts at 0 and only ever adds the field size", len(prof) == 2 and prof[0] == "0" and re.match(r"^AddWithOverflow\((#, SubWithOverflow\(core::slice::len\(\$1\), core::slice::len\(\$1\)\)\.0|SubWithOverflow\(core::slice::len\(\$1\), core::slice::len\(\$1\)\)\.0, #)\)\.0$", prof[1]) is not None, vw, str(prof)[:200])
         cinc = [s for s, r in cv.defs(cs) if "AddWithOverflow" in r]
@@ -259,7 +259,7 @@ def check(ctx):
     # ---- consume_message_prefix (prost_codec)
     P = "prost_codec"
     cp = ctx.body(P, r"^prost_codec::consume_message_prefix$")
-    ccp = Canon(prog, cp)
+    ccp = Canon(prog, cp, inline=r"^prost_codec::")
     cpw = "%s:%d" % (cp.file, cp.line)
     st_true = [s for s, e in ccp.returns() if render(e) == "std::result::Result::Ok{0: 1}"]
     ctx.floor("prefix", "consume_message_prefix Ok(true)", st_true, 1, exact=True)
